@@ -5,7 +5,7 @@ PROP = dict(
     level="exploration",
     engine="bex",
     technique="bounded-exhaustive enumeration of integer arguments on the real functions, each block in a forked child with watchdog; sieve / Miller-Rabin oracle; hook step counter",
-    claim="every argument in the stated ranges (all n <= 2^22 thorough, boundary windows at 2^16, 2^24, 2^31, 65521^2, 2^32, a 32-bit lattice, "
+    claim="every argument in the stated ranges (all n <= 2^25 thorough, boundary windows at 2^16, 2^24, 2^31, 65521^2, 2^32, a 32-bit lattice, "
           "semiprimes around 2^16) is executed on the implementation and compared with an exact oracle, including a deterministic cost oracle; "
           "no sampling. Exhaustive within the bound, silent outside it.",
     note="trusts the harness's sieve/Miller-Rabin (cross-checked against each other on the overlap) and the DSPLIB_VERIF step-counter hook placement",
@@ -15,11 +15,11 @@ PROP = dict(
          "argument that is prime or has >= 2 prime factors (isprime/factor), has >= 2 primes below it (primes), is "
          "composite (nextprime), or m > 2 (pow2 helpers)",
     bounds=dict(
-        quick="isprime/factor: every n in [0,2^18], every n within 1024 of 2^16, 2^24, 2^31, 65521^2, 2^32-1, lattice 4099*64*k+17 "
+        quick="isprime/factor: every n in [0,2^20], every n within 1024 of 2^16, 2^24, 2^31, 65521^2, 2^32-1, lattice 4099*64*k+17 "
               "over 32 bits, all p*q<2^32 of the 40 primes nearest 2^16; primes(n) n<=1024 + 4 large; nextprime every n<=8192 + "
-              "windows +-48; nextpow2/ispow2 every m<=2^18 and within 256 of every 2^k and INT_MAX",
-        thorough="isprime/factor: every n in [0,2^22], windows +-4096, lattice 4099*k+17 over the whole 32-bit range (1.05M points); "
-                 "primes(n) n<=4096 + 4 large; nextprime every n<=65536 + windows +-256; pow2 helpers every m<=2^22 + windows"),
+              "windows +-48; nextpow2/ispow2 every m<=2^20 and within 256 of every 2^k and INT_MAX",
+        thorough="isprime/factor: every n in [0,2^25], windows +-4096, lattice 4099*k+17 over the whole 32-bit range (1.05M points); "
+                 "primes(n) n<=4096 + 4 large; nextprime every n<=65536 + windows +-256; pow2 helpers every m<=2^26 + windows"),
     deadline=dict(quick=150, thorough=1500),
     assumptions=COMMON_ASSUME + [
         "termination: a call that does not return within 8 s (normal: < 2 ms) is reported as a hang",
